@@ -57,8 +57,7 @@ KF_SHIFT_ZERO = 'KF-shift-zero'
 KF_ND2UTPM_RANK2 = 'KF-ndarray2utpm-rank2'
 KF_ND2UTPM_ELEM = 'KF-ndarray2utpm-elemshape'
 KF_VECSYM_COMPLEX = 'KF-vecsym-utpm-complex'
-KF_U2B_COMPLEX = 'KF-utpm2base_and_dirs-complex'
-KF_B2U_COMPLEX = 'KF-base_and_dirs2utpm-complex'
+KF_BD_COMPLEX = 'KF-base_and_dirs-complex'      # utpm2base_and_dirs and base_and_dirs2utpm (a round trip needs both)
 KF_COMBINE_COMPLEX = 'KF-combine_blocks-complex'
 KF_COMBINE_LIST = 'KF-combine_blocks-list'
 
@@ -189,7 +188,7 @@ def prop_b2u_u2b(case, stats):
 @st.composite
 def b2u_cases(draw):
     steered = []
-    kind = _steer_kind(draw(_kind()), [KF_B2U_COMPLEX, KF_U2B_COMPLEX], steered)
+    kind = _steer_kind(draw(_kind()), [KF_BD_COMPLEX], steered)
     shape = draw(gen.shapes(max_rank=3, max_side=3))
     P = draw(st.sampled_from([1, 2, 2, 3, 4]))
     D = draw(st.sampled_from([0, 1, 1, 2, 2, 3, 4, 5]))
@@ -237,7 +236,7 @@ def prop_u2b_b2u(case, stats):
 @st.composite
 def u2b_cases(draw):
     steered = []
-    kind = _steer_kind(draw(_kind()), [KF_B2U_COMPLEX, KF_U2B_COMPLEX], steered)
+    kind = _steer_kind(draw(_kind()), [KF_BD_COMPLEX], steered)
     D, P = draw(_DP)
     shape = draw(gen.shapes(max_rank=3, max_side=3))
     data = draw(_arr((D, P) + tuple(shape), kind))
